@@ -2,10 +2,74 @@
 /// edge e is in the subgraph with identifier id
 pub open spec fn bit(id: usize, e: int) -> bool { 0 <= e < 64 && (id >> (e as usize)) & 1usize == 1usize }
 pub open spec fn pow2(n: int) -> int { if 0 <= n < 64 { (1usize << (n as usize)) as int } else { 0 } }
-// A-POPCOUNT: population count as an uninterpreted function with its three defining facts (code-independent bit counting)
-pub uninterp spec fn popcount(x: usize) -> nat;
+/// population count, defined by recursion on the bits; the only assumption is that `usize::count_ones` computes it (A-LIB)
+pub open spec fn popcount(x: usize) -> nat
+    decreases x via popcount_dec
+{
+    if x == 0 { 0 } else { ((x & 1usize) as nat) + popcount(x >> 1usize) }
+}
+#[via_fn]
+proof fn popcount_dec(x: usize) {
+    if x != 0 { assert((x >> 1usize) < x) by(bit_vector) requires x != 0; }
+}
 pub assume_specification [usize::count_ones] (x: usize) -> (r: u32) ensures r == popcount(x);
-pub broadcast axiom fn ax_pop_zero(x: usize) ensures (#[trigger] popcount(x) == 0) <==> x == 0;
-pub broadcast axiom fn ax_pop_full(n: usize) requires n < 64 ensures #[trigger] popcount(sub(1usize << n, 1)) == n;
-pub broadcast axiom fn ax_pop_clear(x: usize, k: usize) requires k < 64, bit(x, k as int) ensures #[trigger] popcount(x ^ (1usize << k)) == popcount(x) - 1;
+proof fn lemma_shr_dec(x: usize)
+    requires x != 0
+    ensures (x >> 1usize) < x
+{ assert((x >> 1usize) < x) by(bit_vector) requires x != 0; }
+pub proof fn lemma_pop_unfold(y: usize)
+    ensures popcount(y) == ((y & 1usize) as nat) + popcount(y >> 1usize)
+{
+    if y == 0 {
+        assert((0usize & 1usize) == 0usize) by(bit_vector);
+        assert((0usize >> 1usize) == 0usize) by(bit_vector);
+    }
+}
+/// the three facts about population count used by the sampling contracts — PROVED (they were axioms in an earlier revision)
+pub broadcast proof fn ax_pop_zero(x: usize)
+    ensures (#[trigger] popcount(x) == 0) <==> x == 0
+    decreases x
+{
+    if x != 0 {
+        lemma_shr_dec(x);
+        ax_pop_zero(x >> 1usize);
+        assert((x & 1usize) == 1usize || (x >> 1usize) != 0) by(bit_vector) requires x != 0;
+        assert((x & 1usize) == 0usize || (x & 1usize) == 1usize) by(bit_vector);
+    }
+}
+pub broadcast proof fn ax_pop_full(n: usize)
+    requires n < 64
+    ensures #[trigger] popcount(sub(1usize << n, 1)) == n
+    decreases n
+{
+    if n == 0 {
+        assert(sub(1usize << 0usize, 1) == 0usize) by(bit_vector);
+    } else {
+        let m = (n - 1) as usize;
+        ax_pop_full(m);
+        assert(sub(1usize << n, 1) != 0usize) by(bit_vector) requires 1 <= n < 64;
+        assert((sub(1usize << n, 1) & 1usize) == 1usize) by(bit_vector) requires 1 <= n < 64;
+        assert((sub(1usize << n, 1) >> 1usize) == sub(1usize << m, 1)) by(bit_vector) requires 1 <= n < 64, m == n - 1;
+    }
+}
+pub broadcast proof fn ax_pop_clear(x: usize, k: usize)
+    requires k < 64, bit(x, k as int)
+    ensures #[trigger] popcount(x ^ (1usize << k)) == popcount(x) - 1
+    decreases k
+{
+    let y = x ^ (1usize << k);
+    lemma_pop_unfold(x);
+    lemma_pop_unfold(y);
+    if k == 0 {
+        assert((x & 1usize) == 1usize) by(bit_vector) requires (x >> 0usize) & 1usize == 1usize;
+        assert(((x ^ (1usize << 0usize)) & 1usize) == 0usize) by(bit_vector) requires (x & 1usize) == 1usize;
+        assert(((x ^ (1usize << 0usize)) >> 1usize) == (x >> 1usize)) by(bit_vector);
+    } else {
+        let m = (k - 1) as usize;
+        assert(((x >> 1usize) >> m) & 1usize == 1usize) by(bit_vector) requires 1 <= k < 64, m == k - 1, (x >> k) & 1usize == 1usize;
+        ax_pop_clear(x >> 1usize, m);
+        assert(((x ^ (1usize << k)) & 1usize) == (x & 1usize)) by(bit_vector) requires 1 <= k < 64;
+        assert(((x ^ (1usize << k)) >> 1usize) == ((x >> 1usize) ^ (1usize << m))) by(bit_vector) requires 1 <= k < 64, m == k - 1;
+    }
+}
 pub broadcast group popcount_axioms { ax_pop_zero, ax_pop_full, ax_pop_clear }
